@@ -354,6 +354,39 @@ theorem C18_terminal (P : Policy) (s : Script) (sched : List Nat) (rid : Nat) (e
     unfold terminal cleanEnd ev
     cases ho : (run P s).outcome <;> simp
 
+/-- **C18** (errors and interrupts): whenever `run()` raises — an `Exception`, an escaped `PropagateError`, or an
+interrupt (`KeyboardInterrupt`, `exit(reason, SystemExit(n))`) — the history, if START was reached, ends with
+exactly one ABORT; never COMPLETE -/
+theorem C18_raising_run_aborts (P : Policy) (s : Script) (sched : List Nat) (rid : Nat)
+    (h : (run P s).outcome ≠ .returns) :
+    history .patched P s sched rid = [] ∨
+    ∃ n, history .patched P s sched rid = ev rid .start :: List.replicate n (ev rid .running) ++ [ev rid .abort] := by
+  have hc : cleanEnd P s = false := by
+    unfold cleanEnd; cases ho : (run P s).outcome with
+    | returns => exact absurd ho h
+    | raises e => rfl
+  have := C18_history P s sched rid
+  rw [hc] at this
+  exact this
+
+/-- **C18** (interrupts): a run that an interrupt leaves (`run()` raises a `BaseException` that is neither an
+`Exception` nor `Filter.Exit`) reports ABORT, for every script, policy and heartbeat schedule -/
+theorem C18_interrupted_run_aborts (P : Policy) (s : Script) (sched : List Nat) (rid : Nat)
+    (h : (run P s).outcome = .raises .base) :
+    history .patched P s sched rid = [] ∨
+    ∃ n, history .patched P s sched rid = ev rid .start :: List.replicate n (ev rid .running) ++ [ev rid .abort] :=
+  C18_raising_run_aborts P s sched rid (by rw [h]; simp)
+
+/-- … and a run that returns normally reports COMPLETE -/
+theorem C18_returning_run_completes (P : Policy) (s : Script) (sched : List Nat) (rid : Nat)
+    (h : (run P s).outcome = .returns) :
+    history .patched P s sched rid = [] ∨
+    ∃ n, history .patched P s sched rid = ev rid .start :: List.replicate n (ev rid .running) ++ [ev rid .complete] := by
+  have hc : cleanEnd P s = true := by unfold cleanEnd; rw [h]; rfl
+  have := C18_history P s sched rid
+  rw [hc] at this
+  exact this
+
 /-- **C18** (run id): every event of a run carries the same run id -/
 theorem C18_run_id_constant (P : Policy) (s : Script) (sched : List Nat) (rid : Nat) :
     ∀ e ∈ history .patched P s sched rid, e.rid = rid := by
@@ -392,6 +425,10 @@ example : (history .patched P0 { sBase with iters := [⟨.ret, .ret, .ret, 0⟩,
 example : (history .patched P0 { sBase with iters := [⟨.ret, .raise, .ret, 0⟩] } [0, 0, 3] 7).map (·.typ) =
     [.start, .running, .running, .running, .abort] := by decide +kernel
 example : history .patched P0 { sBase with initPre := .raise } [1, 1, 1] 7 = [] := by decide +kernel
+example : (run P0 { sBase with iters := [⟨.ret, .interrupt, .ret, 0⟩] }).outcome = .raises .base ∧
+    (history .patched P0 { sBase with iters := [⟨.ret, .interrupt, .ret, 0⟩] } [0, 0, 1] 7).map (·.typ) = [.start, .running, .abort] ∧
+    (history .patched ⟨3, 3, false⟩ { sBase with shutdown := .exitCall .base } [0, 0, 2] 7).map (·.typ) =
+      [.start, .running, .running, .abort] := by decide +kernel
 
 /-! ## the behaviour before the fix (witnesses) -/
 
